@@ -1536,3 +1536,179 @@ func ruleArgMaxKernel(c *Ctx, prop string) {
 	}
 	c.decide(ok, "R9", key, site, "ArgMax = tensor.Argmax(inputs[0], axis)", "ArgMax does not reduce inputs[0] with gorgonia's Argmax only (found: "+strings.Join(names, ", ")+")")
 }
+
+// ---- R31: Gather plumbing ------------------------------------------------------------------------------
+//
+// out[..., i_0..i_q-1, ...] = data[..., indices[i_0..i_q-1], ...] on `axis`. Decided on the code shape:
+// G1 negative indices are offset by the extent of DATA at the normalised axis; G2 the output has the shape
+// data[:axis] ++ indices.shape ++ data[axis+1:] (helper contract included); G3 the element routine receives
+// (output, data, indices, axis) in that order; G4 it selects [k,k+1) on `axis` of data, places the block at the
+// coordinates of the index iterator shifted by `axis`, and assigns output <- data (not the reverse).
+func ruleGather(c *Ctx, prop string) {
+	oi := c.opByName("Gather")
+	if oi == nil {
+		return
+	}
+	apply := oi.methods["Apply"]
+	hasAxis := func(t string) bool { return strings.Contains(t, ".axis") }
+	var offsetCall, elemCall, insCall *ssa.Call
+	for _, b := range apply.Blocks {
+		for _, in := range b.Instrs {
+			cl, ok := in.(*ssa.Call)
+			if !ok {
+				continue
+			}
+			sc := cl.Common().StaticCallee()
+			if sc == nil || !isLibFn(sc) {
+				continue
+			}
+			switch {
+			case len(cl.Common().Args) == 2 && strings.Contains(sc.Name(), "Offset"):
+				offsetCall = cl
+			case len(cl.Common().Args) == 4 && fnPkgPath(sc) == pkgOpset13 && sc.Signature.Results().Len() == 1 && isErrorType(sc.Signature.Results().At(0).Type()):
+				elemCall = cl
+			case len(cl.Common().Args) == 3 && sc.Signature.Results().Len() == 1 && fnPkgPath(sc) == pkgOpset13:
+				if _, isSl := sc.Signature.Results().At(0).Type().Underlying().(*types.Slice); isSl {
+					insCall = cl
+				}
+			}
+		}
+	}
+	site := c.pos(apply.Pos())
+	// G1
+	if offsetCall == nil {
+		c.undecided("R31", "R31:gather:G1", site, "Gather.Apply no longer offsets negative indices through an ops helper")
+	} else {
+		t := c.term(offsetCall.Common().Args[1], 0)
+		c.decide(strings.HasPrefix(t, "Shape(P1[0])[") && hasAxis(t), "R31", "R31:gather:G1", c.pos(offsetCall.Pos()),
+			"negative indices are offset by the extent of data at the gather axis",
+			"negative indices are offset by "+t+", not by the extent of DATA (inputs[0]) at the normalised axis: -1 then selects the wrong element")
+	}
+	// G2
+	if insCall == nil {
+		c.undecided("R31", "R31:gather:G2", site, "the output shape of Gather is no longer built by a three-argument list helper")
+	} else {
+		a := insCall.Common().Args
+		t0, t1, t2 := c.term(a[0], 0), c.term(a[1], 0), c.term(a[2], 0)
+		ok := strings.HasPrefix(t0, "Shape(") && !strings.Contains(t0, "P1[0]") && t1 == "Shape(P1[0])" && hasAxis(t2)
+		why := fmt.Sprintf("the output shape is built from (%s, %s, %s) instead of (indices.shape, data.shape, axis)", t0, t1, t2)
+		if ok {
+			if w := checkInsertWithReplace(insCall.Common().StaticCallee()); w != "" {
+				ok, why = false, "the list helper "+fname(insCall.Common().StaticCallee())+" is not x[:axis] ++ a ++ x[axis+1:]: "+w
+			}
+		}
+		c.decide(ok, "R31", "R31:gather:G2", c.pos(insCall.Pos()), "output shape = data[:axis] ++ indices.shape ++ data[axis+1:]", why)
+	}
+	// G3 + G4
+	if elemCall == nil {
+		c.undecided("R31", "R31:gather:G3", site, "Gather.Apply no longer hands (output, data, indices, axis) to an element routine")
+		return
+	}
+	a := elemCall.Common().Args
+	t0, t1, t2, t3 := c.term(a[0], 0), c.term(a[1], 0), c.term(a[2], 0), c.term(a[3], 0)
+	c.decide(strings.HasPrefix(t0, "New(") && t1 == "P1[0]" && strings.Contains(t2, "P1[1]") && !strings.Contains(t2, "P1[0]") && hasAxis(t3), "R31", "R31:gather:G3", c.pos(elemCall.Pos()),
+		"element routine receives (fresh output, data, indices, axis)", fmt.Sprintf("the element routine receives (%.40s, %.40s, %.60s, %.40s): operands exchanged", t0, t1, t2, t3))
+	g := elemCall.Common().StaticCallee()
+	bad := ""
+	var assign *ssa.Call
+	nAxisSl, nShift := 0, 0
+	for _, b := range g.Blocks {
+		for _, in := range b.Instrs {
+			switch x := in.(type) {
+			case *ssa.Store:
+				ia, ok := x.Addr.(*ssa.IndexAddr)
+				if !ok {
+					continue
+				}
+				cl, ok := stripIface(x.Val).(*ssa.Call)
+				if !ok || cl.Common().StaticCallee() == nil || cl.Common().StaticCallee().Name() != "NewSlicer" {
+					continue
+				}
+				it := c.term(ia.Index, 0)
+				switch {
+				case it == "P3":
+					nAxisSl++
+				case strings.Contains(it, "P3") && strings.Contains(it, "+"):
+					nShift++
+				default:
+					bad = "a slicer is placed at position " + it + ": neither the gather axis nor an index coordinate shifted by the axis"
+				}
+			case *ssa.Call:
+				if sc := x.Common().StaticCallee(); sc != nil && sc.Name() == "PairwiseAssign" {
+					assign = x
+				}
+			}
+		}
+	}
+	if bad == "" && (nAxisSl != 1 || nShift != 1) {
+		bad = fmt.Sprintf("%d slicers on the gather axis of data and %d on the shifted index coordinates of the output (1 and 1 expected)", nAxisSl, nShift)
+	}
+	if bad == "" {
+		if assign == nil {
+			bad = "the selected block is not assigned into the output with ops.PairwiseAssign"
+		} else {
+			d, s := c.term(assign.Common().Args[0], 0), c.term(assign.Common().Args[1], 0)
+			if !strings.HasPrefix(d, "Slice(P0,") || !strings.HasPrefix(s, "Slice(P1,") {
+				bad = "the block assignment is not output[coords] <- data[k]: it assigns " + d + " <- " + s
+			}
+		}
+	}
+	c.decide(bad == "", "R31", "R31:gather:G4", c.pos(g.Pos()), "data[.., k, ..] on `axis` is assigned to output at the index coordinates shifted by `axis`", bad)
+}
+
+func stripIface(v ssa.Value) ssa.Value {
+	for {
+		switch x := v.(type) {
+		case *ssa.MakeInterface:
+			v = x.X
+		case *ssa.ChangeInterface:
+			v = x.X
+		default:
+			return v
+		}
+	}
+}
+
+// checkInsertWithReplace: y = x[:axis] ++ a ++ x[axis+1:] for (a, x, axis).
+func checkInsertWithReplace(f *ssa.Function) string {
+	if f == nil || len(f.Params) != 3 {
+		return "signature changed"
+	}
+	a, x, axis := f.Params[0], f.Params[1], f.Params[2]
+	var head, tail *ssa.Slice
+	appendsA := false
+	for _, b := range f.Blocks {
+		for _, in := range b.Instrs {
+			switch v := in.(type) {
+			case *ssa.Slice:
+				if v.X != ssa.Value(x) {
+					continue
+				}
+				if v.Low == nil && v.High == ssa.Value(axis) {
+					head = v
+				} else if v.High == nil {
+					if lo, ok := v.Low.(*ssa.BinOp); ok && lo.Op == token.ADD && lo.X == ssa.Value(axis) {
+						if k, isK := constInt(lo.Y); isK && k == 1 {
+							tail = v
+						}
+					}
+				} else {
+					return "x is cut at other positions than [:axis] and [axis+1:]"
+				}
+			case *ssa.Call:
+				if bi, ok := v.Common().Value.(*ssa.Builtin); ok && bi.Name() == "append" && len(v.Common().Args) == 2 && v.Common().Args[1] == ssa.Value(a) {
+					appendsA = true
+				}
+			}
+		}
+	}
+	switch {
+	case head == nil:
+		return "the head x[:axis] is missing"
+	case tail == nil:
+		return "the tail x[axis+1:] is missing"
+	case !appendsA:
+		return "a is not inserted"
+	}
+	return ""
+}
